@@ -844,7 +844,7 @@ func init() {
 			if tier == "thorough" {
 				pb = 3
 			}
-			for _, integ := range []string{"http", "chi", "gin", "echo"} {
+			for _, integ := range []string{"http", "chi", "gin", "echo", "fiber"} {
 				for _, ex := range [][]string{{"ok", "ok"}, {"ok", "mw-error"}, {"raw", "handler-panic"}, {"ok", "unregistered"}} {
 					integ, ex := integ, ex
 					jobs = append(jobs, mc.Job{Name: fmt.Sprintf("c16-conc/%s/%s", integ, strings.Join(ex, "+")), Weight: 20, Run: func(r *mc.Report) { c16Conc(r, integ, ex, pb) }})
